@@ -21,6 +21,10 @@ import (
 	"trpc.group/trpc-go/trpc-mcp-go/zzsimhook"
 )
 
+// SpinLimit is the number of consecutive steps of one library task (no simulated time passing,
+// at most 6 distinct sites) after which it is declared livelocked.
+var SpinLimit = 3000
+
 // Options configure one run.
 type Options struct {
 	MaxSteps   int
@@ -97,6 +101,7 @@ type Task struct {
 	children map[string]int
 	notBefore time.Duration
 	holding   int
+	quarantined bool
 	idleSeq   int64 // value of exitSeq when an exit-sensitive idle wait began (-1: not sensitive)
 }
 
@@ -124,6 +129,10 @@ type Sim struct {
 	res      *Result
 	hash     uint64
 	rootDone bool
+	spinTask *Task
+	spinN    int
+	spinAt   time.Duration
+	spinSites map[string]bool
 	exitSeq  int64
 	anon     int
 	abort    string
@@ -498,7 +507,7 @@ func (s *Sim) lockFree(t *Task, op *parkOp) bool {
 func (s *Sim) enabled(now time.Duration) (en []*Task, idle []*Task, nextWake time.Duration) {
 	nextWake = -1
 	for _, t := range s.all {
-		if t.exited || t.parked == nil {
+		if t.exited || t.parked == nil || t.quarantined {
 			continue
 		}
 		if t.parked.kind == opLock && !s.lockFree(t, t.parked) {
@@ -636,6 +645,29 @@ func (s *Sim) schedule() {
 		}
 		if t != s.last && s.last != nil && t.lib {
 			s.res.Switches++
+		}
+		// livelock detection: one library task takes step after step, at a handful of sites, while
+		// simulated time stands still.  It is quarantined (never scheduled again) and the run goes on,
+		// so that the oracles still see what the rest of the system does.
+		if t == s.spinTask && now == s.spinAt && t.lib {
+			s.spinN++
+			if len(s.spinSites) < 16 {
+				s.spinSites[op.site] = true
+			}
+			if s.spinN >= SpinLimit && len(s.spinSites) <= 6 {
+				sites := make([]string, 0, len(s.spinSites))
+				for k := range s.spinSites {
+					sites = append(sites, k)
+				}
+				sort.Strings(sites)
+				t.quarantined = true
+				s.res.LibEvents = append(s.res.LibEvents, fmt.Sprintf("livelock in task %s: %d consecutive steps without time passing at %v", t.Name, s.spinN, sites))
+				s.spinTask = nil
+				s.mu.Unlock()
+				continue
+			}
+		} else {
+			s.spinTask, s.spinN, s.spinAt, s.spinSites = t, 1, now, map[string]bool{op.site: true}
 		}
 		s.last = t
 		s.step++
